@@ -226,7 +226,11 @@ type blobSpec struct {
 	SigMT    string `json:"signature_media_type,omitempty"` // "" = the envelope's format
 	ReadFail bool   `json:"reader_fails,omitempty"`
 	Len      int    `json:"content_len"`
-	content  []byte
+	// family blob-reader (reader.go): the shape of the io.Reader the blob is read through ("" = bytes.Reader)
+	// and what the presented signature was made for
+	Shape     string `json:"reader_shape,omitempty"`
+	SignedFor string `json:"signed_for,omitempty"`
+	content   []byte
 }
 
 // preObs is what one verifier.Verify call made by notation.Verify returned.
@@ -778,7 +782,9 @@ func (r *runner) exec(k *kase, sh *shared) {
 		case "top":
 			b := k.Blob
 			var rd io.Reader = bytes.NewReader(b.content)
-			if b.ReadFail {
+			if b.Shape != "" {
+				rd = shapeReader(b.Shape, b.content)
+			} else if b.ReadFail {
 				rd = &failReader{}
 			}
 			sig := e.bytes
@@ -870,6 +876,9 @@ func (r *runner) exec(k *kase, sh *shared) {
 	nontrivial := levelValid && k.Cfg.Level != "skip" &&
 		((f.intact() && (presentedDiffers || len(k.Md) > 0)) || (!f.intact() && f.Content))
 	key := fmt.Sprintf("%s|%s|%s|%s|%v|%s|%s", e.Desc, e.Format, k.Kind, k.Cfg.key(), k.Md, call, f.coq())
+	if k.Blob != nil && k.Blob.Shape != "" {
+		key += "|" + k.Blob.Shape
+	}
 	if r.sink != nil {
 		r.sink(my, term, k, key, nontrivial)
 		return
@@ -2018,6 +2027,56 @@ func runC01(a *Args) error {
 				r.run(&kase{Family: "configuration", Env: pe, Kind: "blob", Cfg: cfg{Level: "permissive", Store: 1, PM: 0}, Md: k3, What: "equal", Gen: blobGenOf(tgt{Dg: eqD.Dg, Sz: eqD.Sz})})
 			}
 			r.registryCall("illegal statement: skip with override", cfg{Level: "skip", Override: map[string]string{"revocation": "log"}, Store: 1}, nil, 50, "", TestRef, one(lA))
+		}
+	}
+
+	// ---- family 13: notation.VerifyBlob through readers of every shape the io.Reader contract allows (reader.go) ----
+	{
+		k1 := map[string]string{"k1": "v1"}
+		sizes := []int{1, 62, 4097, 32768, 32769, 49185, 65536}
+		chainOf := map[string]string{MtJWS: "ec256", MtCOSE: "ec384"}
+		algIdx := map[int]int{256: 0, 384: 1, 512: 2}
+		lv := 0
+		for zi, n := range sizes {
+			blob := blobOfSize(n)
+			variants := signedVariants(blob)
+			envs := map[string]*envelope{}
+			for si, shape := range readerShapes {
+				fails := shapeFails(shape, blob)
+				for vi, sv := range variants {
+					for fi, format := range formats {
+						if !thorough && (zi+si+vi+fi)%2 == 1 {
+							continue
+						}
+						ek := fmt.Sprintf("%s|%d", format, vi)
+						e := envs[ek]
+						if e == nil {
+							chain := chainOf[format]
+							t := tgt{MT: "text/plain", Dg: digests(sv.content)[algIdx[hashOf[chain]]], Sz: int64(len(sv.content)), Ann: annSets[1]}
+							e = w.sign(format, chain, payloadJSON(t), "", false, fmt.Sprintf("blob-payload(%s of the %d byte blob)", sv.what, n))
+							envs[ek] = e
+						}
+						what := "equal"
+						switch {
+						case fails:
+							what = "reader-fails"
+						case vi != 0:
+							what = "signed-for-" + sv.what
+						}
+						var md map[string]string
+						if (si+vi)%3 == 0 {
+							md = k1
+						}
+						mt := "text/plain"
+						if (si+zi)%4 == 3 {
+							mt = ""
+						}
+						lv++
+						r.run(&kase{Family: "blob-reader", Env: e, Kind: "top", Cfg: goodCfg(rng, lv%24), Md: md, What: what,
+							Blob: &blobSpec{What: what, MT: mt, ReadFail: fails, Shape: shape, SignedFor: sv.what, content: blob}})
+					}
+				}
+			}
 		}
 	}
 
